@@ -299,7 +299,7 @@ func (lo *annLayout) tlaConstants() string {
 }
 
 func (lo *annLayout) config(spec string, maxOps int, invariants, props string) string {
-	s := fmt.Sprintf("SPECIFICATION %s\nCONSTANTS\n  R = %d\n  NB = %d\n  NVox <- NVoxDef\n  InitSV <- InitSVDef\n  InitMax = %d\n  MaxOps = %d\n  Classes1 <- Classes1Def\n  Classes2 <- Classes2Def\n  WithOverwrite = %s\n",
+	s := fmt.Sprintf("SPECIFICATION %s\nCONSTANTS\n  R = %d\n  NB = %d\n  NVox <- NVoxDef\n  InitSV <- InitSVDef\n  InitMax = %d\n  MaxOps = %d\n  Classes1 <- Classes1Def\n  Classes2 <- Classes2Def\n  WithOverwrite = %s\n  WithSplit = FALSE\n",
 		spec, lo.g.R, len(lo.g.Blocks), maxU64(lo.initSV), maxOps, map[bool]string{true: "TRUE", false: "FALSE"}[lo.overwrite])
 	s += fmt.Sprintf("  P = %d\n  PosRegion <- PosRegionDef\n  PosBlock <- PosBlockDef\n  NT = %d\n  KindSeq <- KindSeqDef\n  NRel = %d\n  InitMP <- InitMPDef\n  InitElems <- InitElemsDef\n  NBox = %d\n  BoxPos <- BoxPosDef\n  BoxBlocks <- BoxBlocksDef\n  ROIBlocks <- ROIBlocksDef\n  MaxL = %d\n",
 		lo.P(), lo.nt, lo.nrel, len(lo.boxes), int(maxU64(lo.initSV))+7*maxOps+2)
